@@ -1002,6 +1002,11 @@ impl<'a> WriteTxn<'a> {
         Ok(())
     }
 
+    /// Id of a label that exists by now, e.g. one this transaction interned itself.
+    pub fn known_label_id(&self, name: &str) -> Option<LabelId> {
+        self.engine.get_label_id(name)
+    }
+
     pub fn remove_node_label(&mut self, node: InternalNodeId, label_id: LabelId) -> Result<()> {
         self.pending_label_removals.push((node, label_id));
         self.pending_label_order.push(false);
